@@ -633,3 +633,198 @@ Section CutRootRule.
     - right. split; [|exact Hres]. intros k Hc. apply (Hno k). now apply cutpt_false_is_cut_point.
   Qed.
 End CutRootRule.
+
+(* ================================================================ histories: operations compose *)
+Section Ext.
+  Context {A : Type}.
+  Variables m m' : A -> bool.
+  Hypothesis Hm : forall x, m x = m' x.
+
+  Lemma cut_root_ext (fd : bool) (fs : list A) : cut_root m fd fs = cut_root m' fd fs.
+  Proof.
+    revert fd. induction fs as [|f r IH]; intros fd; [reflexivity|].
+    cbn. rewrite Hm. destruct (m' f); [destruct fd|]; now rewrite ?IH.
+  Qed.
+
+  Lemma prune_frames_ext (fs : list A) : prune_frames m fs = prune_frames m' fs.
+  Proof. unfold prune_frames. now rewrite cut_root_ext. Qed.
+
+  Lemma drop_to_first_ext (fs : list A) : drop_to_first m fs = drop_to_first m' fs.
+  Proof. induction fs as [|f r IH]; [reflexivity|]. cbn. rewrite Hm, IH. reflexivity. Qed.
+
+  Lemma prune_from_frames_ext (fs : list A) : prune_from_frames m fs = prune_from_frames m' fs.
+  Proof.
+    unfold prune_from_frames. rewrite drop_to_first_ext.
+    now rewrite (existsb_ext_in m m' fs (fun x _ => Hm x)).
+  Qed.
+End Ext.
+
+(* what the operations never touch *)
+Definition same_header (q p : profile) : Prop :=
+  p_function q = p_function p /\ p_dropframes q = p_dropframes p /\ p_keepframes q = p_keepframes p.
+
+Lemma same_header_refl p : same_header p p.
+Proof. repeat split. Qed.
+
+Lemma same_header_trans a b c : same_header a b -> same_header b c -> same_header a c.
+Proof. intros [H1 [H2 H3]] [H4 [H5 H6]]. repeat split; congruence. Qed.
+
+Section HistoryProofs.
+  Variable M : string -> string -> bool.
+  Variable V : string -> bool.
+
+  Lemma frame_fn_header q p fr : p_function q = p_function p -> frame_fn q fr = frame_fn p fr.
+  Proof. intros H. unfold frame_fn, find_function. now rewrite H. Qed.
+
+  Lemma spec_prune_header q p d k ss :
+    p_function q = p_function p -> spec_prune M q d k ss = spec_prune M p d k ss.
+  Proof.
+    intros H. unfold spec_prune. apply map_ext. intros s. unfold on_frames. f_equal.
+    apply prune_frames_ext. intros fr. unfold frame_dropped. now rewrite (frame_fn_header q p fr H).
+  Qed.
+
+  Lemma spec_prune_from_header q p re ss :
+    p_function q = p_function p -> spec_prune_from M q re ss = spec_prune_from M p re ss.
+  Proof.
+    intros H. unfold spec_prune_from. apply map_ext. intros s. unfold on_frames. f_equal.
+    apply prune_from_frames_ext. intros fr. unfold frame_from. now rewrite (frame_fn_header q p fr H).
+  Qed.
+
+  Lemma removeun_active_header q p : same_header q p -> removeun_active V q = removeun_active V p.
+  Proof. intros [_ [H2 H3]]. unfold removeun_active. now rewrite H2, H3. Qed.
+
+  Lemma run_step_removeun p :
+    run_step M V p SRemoveUn = match removeun_active V p with Some (d, k) => prune M p d k | None => p end.
+  Proof.
+    unfold run_step, remove_uninteresting, removeun_active.
+    destruct (String.eqb (p_dropframes p) ""); [reflexivity|].
+    destruct (V (anchor (p_dropframes p))); cbn [negb]; [|reflexivity].
+    destruct (String.eqb (p_keepframes p) ""); [reflexivity|].
+    destruct (V (anchor (p_keepframes p))); reflexivity.
+  Qed.
+
+  Lemma prune_header p d k : same_header (prune M p d k) p.
+  Proof. repeat split. Qed.
+  Lemma prune_from_header p re : same_header (prune_from M p re) p.
+  Proof. repeat split. Qed.
+
+  Lemma run_step_header p st : same_header (run_step M V p st) p.
+  Proof.
+    destruct st; [apply prune_header|apply prune_from_header|].
+    rewrite run_step_removeun. destruct (removeun_active V p) as [[d k]|];
+      [apply prune_header|apply same_header_refl].
+  Qed.
+
+  (* ---- validity is preserved by in-place surgery that only removes lines and sample locations *)
+  Lemma wf_rewritten (p : profile) (g : location -> location) (h : sample -> sample) :
+    (forall l, l_id (g l) = l_id l) ->
+    (forall l ln, In ln (l_lines (g l)) -> In ln (l_lines l)) ->
+    (forall s id, In id (s_loc (h s)) -> In id (s_loc s)) ->
+    wf_profile p = true ->
+    wf_profile (set_samples (set_locations p (map g (p_location p))) (map h (p_sample p))) = true.
+  Proof.
+    intros Hg Hlines Hlocs Hwf.
+    pose proof (wf_nodup p Hwf) as Hnd.
+    unfold wf_profile. cbn [p_location p_sample set_samples set_locations].
+    apply andb_true_iff. split; [apply andb_true_iff; split|].
+    - rewrite map_map. erewrite map_ext; [exact Hnd|]. intros l. apply Hg.
+    - apply forallb_forall. intros s' Hs'. apply in_map_iff in Hs'. destruct Hs' as [s [<- Hs]].
+      unfold locs_present. apply forallb_forall. intros id Hid.
+      destruct (wf_present p s id Hwf Hs (Hlocs s id Hid)) as [l Hl].
+      unfold find_location. cbn [p_location set_samples set_locations].
+      rewrite (find_map_id g _ id Hg). unfold find_location in Hl. now rewrite Hl.
+    - apply forallb_forall. intros l' Hl'. apply in_map_iff in Hl'. destruct Hl' as [l [<- Hl]].
+      apply forallb_forall. intros ln Hln.
+      unfold wf_profile in Hwf. apply andb_true_iff in Hwf. destruct Hwf as [_ Hwf].
+      rewrite forallb_forall in Hwf. specialize (Hwf l Hl). rewrite forallb_forall in Hwf.
+      exact (Hwf ln (Hlines l ln Hln)).
+  Qed.
+
+  Lemma after_last_incl {A} (f : A -> bool) (l r : list A) :
+    after_last f l = Some r -> forall x, In x r -> In x l.
+  Proof.
+    revert r. induction l as [|y t IH]; intros r; cbn; [discriminate|].
+    destruct (after_last f t) as [r'|].
+    - intros [= <-] x Hx. right. now apply (IH r').
+    - destruct (f y); [|discriminate]. intros [= <-] x Hx. now right.
+  Qed.
+
+  Lemma from_first_incl {A} (f : A -> bool) (l r : list A) :
+    from_first f l = Some r -> forall x, In x r -> In x l.
+  Proof.
+    revert r. induction l as [|y t IH]; intros r; cbn; [discriminate|].
+    destruct (f y).
+    - intros [= <-] x Hx. exact Hx.
+    - intros H x Hx. right. now apply (IH r).
+  Qed.
+
+  Lemma prune_scan_incl pr pb fd rl : forall x, In x (prune_scan pr pb fd rl) -> In x rl.
+  Proof.
+    revert fd. induction rl as [|id r IH]; intros fd x; cbn; [tauto|].
+    destruct (negb (pr id) && negb (pb id)).
+    - intros [->|H]; [now left|right; now apply (IH true)].
+    - destruct (negb fd).
+      + intros [->|H]; [now left|right; now apply (IH fd)].
+      + destruct (pr id); [intros []|intros [->|[]]; now left].
+  Qed.
+
+  Lemma prune_wf p d k : wf_profile p = true -> wf_profile (prune M p d k) = true.
+  Proof.
+    intros Hwf. unfold prune. apply wf_rewritten; [apply pg_id| | |exact Hwf].
+    - intros l ln. unfold prune_loc.
+      destruct (after_last (prune_line M p d k) (l_lines l)) as [[|r0 rs]|] eqn:E; cbn; try tauto.
+      intros H. exact (after_last_incl _ _ _ E ln H).
+    - intros s id. cbn [s_loc set_sample_locs]. intros H. apply in_rev in H.
+      apply prune_scan_incl in H. now apply in_rev.
+  Qed.
+
+  Lemma prune_from_wf p re : wf_profile p = true -> wf_profile (prune_from M p re) = true.
+  Proof.
+    intros Hwf. unfold prune_from. apply wf_rewritten; [apply g_id| | |exact Hwf].
+    - intros l ln. unfold prune_from_loc.
+      destruct (from_first (pf_line M p re) (l_lines l)) as [r|] eqn:E; cbn; [|tauto].
+      intros H. exact (from_first_incl _ _ _ E ln H).
+    - intros s id.
+      destruct (from_first _ (s_loc s)) as [r|] eqn:E; cbn [s_loc set_sample_locs]; [|tauto].
+      intros H. exact (from_first_incl _ _ _ E id H).
+  Qed.
+
+  Lemma run_step_wf p st : wf_profile p = true -> wf_profile (run_step M V p st) = true.
+  Proof.
+    intros Hwf. destruct st; [now apply prune_wf|now apply prune_from_wf|].
+    rewrite run_step_removeun. destruct (removeun_active V p) as [[d k]|]; [now apply prune_wf|exact Hwf].
+  Qed.
+
+  (* one step of a history: the rule, read with the ORIGINAL profile's functions *)
+  Lemma run_step_meets_spec p q st :
+    wf_profile q = true -> same_header q p -> step_classes M V q st = [] ->
+    fsamples (run_step M V q st) = spec_step M V p (fsamples q) st.
+  Proof.
+    intros Hwf Hh Hc. pose proof Hh as [Hf _]. destruct st as [d k|re|]; cbn [step_classes spec_step] in *.
+    - destruct (in_F14 M q d k) eqn:E; [discriminate|]. cbn [run_step].
+      rewrite (prune_meets_spec_l M q d k Hwf E). now apply spec_prune_header.
+    - destruct (in_F15 M q re) eqn:E; [discriminate|]. cbn [run_step].
+      rewrite (prune_from_meets_spec_l M q re Hwf E). now apply spec_prune_from_header.
+    - rewrite run_step_removeun. rewrite <- (removeun_active_header q p Hh).
+      destruct (removeun_active V q) as [[d k]|]; [|reflexivity].
+      destruct (in_F14 M q d k) eqn:E; [discriminate|].
+      rewrite (prune_meets_spec_l M q d k Hwf E). now apply spec_prune_header.
+  Qed.
+
+  Lemma history_meets_spec_gen p sts : forall q,
+    wf_profile q = true -> same_header q p -> steps_classes M V q sts = [] ->
+    fsamples (run_steps M V q sts) = spec_steps M V p sts (fsamples q).
+  Proof.
+    induction sts as [|st r IH]; intros q Hwf Hh Hc; [reflexivity|].
+    cbn [steps_classes] in Hc. apply app_eq_nil in Hc. destruct Hc as [Hc1 Hc2].
+    unfold run_steps, spec_steps. cbn [fold_left].
+    rewrite <- (run_step_meets_spec p q st Hwf Hh Hc1).
+    apply IH; [now apply run_step_wf| |exact Hc2].
+    exact (same_header_trans _ _ _ (run_step_header q st) Hh).
+  Qed.
+
+  Lemma history_meets_spec_l p sts :
+    wf_profile p = true -> steps_classes M V p sts = [] ->
+    fsamples (run_steps M V p sts) = spec_steps M V p sts (fsamples p).
+  Proof. intros Hwf Hc. exact (history_meets_spec_gen p sts p Hwf (same_header_refl p) Hc). Qed.
+End HistoryProofs.
